@@ -20,6 +20,9 @@ CLAIMED = {
          "symbolic execution of Go SSA (own engine) + SMT (cvc5), differential against reference model, native replay"),
 }
 
+CLAIMED["C19"] = ("Partial, compositional treatment of concurrency safety: (1) lock discipline of all 33 MemoryStore methods (present and absent keys): every access to a table happens with that table's mutex held (exclusively for writes) and no table access or lock acquisition follows the operation's first release (two-phase => each store operation is atomic), decided on a ghost lockset maintained while the real methods are executed symbolically; (2) the (held -> acquired) pairs over all methods form a DAG (no deadlock among store methods); (3) no request writes to shared provider objects (Config, Fosite, handlers, clients) outside a mutex while the code, refresh, introspection, revocation and password flows run on one composed provider. A finding is confirmed natively by running the same operations from two goroutines under the race detector. Enumeration of interleavings of whole API operations is NOT done by this technique and not claimed.", "6/C19",
+         "symbolic execution of Go SSA (own engine) with ghost lockset / lock-order graph / shared-write watch; confirmation by go test -race replay")
+
 NOT_YET = {}
 
 def main():
@@ -49,7 +52,7 @@ def main():
             "guard": "none (harnesses are overlay-only files under /verif/harness; /repo is not instrumented)",
             "enable": "checks load /repo's working tree with go/packages Overlay = /verif/harness; native replays use go test -c -overlay",
             "baseline_off_cmd": BASE_CMD,
-            "source_commits": [],
+            "source_commits": ["aa0ba12", "d7b609b"],
             "add_only": True,
         },
         "engines": [{"name": "symgo", "path": "/verif/symgo", "serves_properties": sorted(CLAIMED),
